@@ -1,6 +1,6 @@
 #!/bin/bash
 # AUXILIARY (never deciding): free-running -race pass of the C10 scenario bodies on the
-# un-instrumented current tree; summary written to /verif/evidence/C10.race.json
+# un-instrumented current tree; summary written to /verif/findings/C10.race.json
 . /verif/env.sh
 /verif/tools/gen_bk.sh; python3 /verif/tools/mkoverlay.py /verif/.work/overlay-race.json || exit 3
 ( cd /repo && go build -race -tags verif -overlay /verif/.work/overlay-race.json -o /verif/bin/c10race ./internal/verifh/cmd/c10race ) || exit 3
@@ -14,6 +14,6 @@ sites=collections.Counter()
 for b in blocks:
     fr=[l.strip() for l in b.splitlines() if l.strip().startswith('/') and '/usr/lib/go' not in l and 'verifh/cmd' not in l]
     sites[fr[0].split(' ')[0] if fr else 'unknown']+=1
-json.dump({"auxiliary":True,"note":"free-running race-detector pass over the C10 scenario bodies; reports unsynchronised accesses below the scheduler's granularity; never decides the property","races":len(blocks),"first_frames":dict(sites.most_common(20)),"scenarios":open('/verif/.work/race.out').read().splitlines()},open('/verif/evidence/C10.race.json','w'),indent=1)
+json.dump({"auxiliary":True,"note":"free-running race-detector pass over the C10 scenario bodies; reports unsynchronised accesses below the scheduler's granularity; never decides the property","races":len(blocks),"first_frames":dict(sites.most_common(20)),"scenarios":open('/verif/.work/race.out').read().splitlines()},open('/verif/findings/C10.race.json','w'),indent=1)
 print("race reports:",len(blocks)); print(sites.most_common(8))
 PY
